@@ -9,7 +9,7 @@
                   termErr, ok := r.(ContextTerminationError)
                   if !ok { panic(r) }                 // foreign panic ("Too much mem released") goes on
                   err = termErr                       // a kill becomes an ordinary return value …
-                  t.propagateTermination(ctx, termErr) // … unless the limit was inherited: then the
+                  t.propagateTermination(ctx, termErr) // … unless the limit was inherited (flag set at push): then the
               }                                       //   parent is terminated too (panics again)
           }()
           err = f()
@@ -184,26 +184,6 @@ mutual
   def bodyFits (B : Nat) : List Item → Prop
     | [] => True
     | it :: rest => it.fits B ∧ bodyFits B rest
-end
-
-/-- a bracket's own running balance of memory after an item that ran to its end -/
-def Item.bal (b : Nat) : Item → Nat
-  | .op (.reqMem n) => b + n.toNat
-  | .op (.relMem n) => b - n.toNat
-  | _ => b
-
-mutual
-  /-- every bracket releases only memory it has itself required before (its own running balance `b`
-  never goes negative), and no request can wrap a counter below `B` -/
-  def Item.localRel (B b : Nat) : Item → Prop
-    | .op (.reqMem n) => n.toNat + B ≤ 2 ^ 64
-    | .op (.relMem n) => n.toNat ≤ b
-    | .op _ => True
-    | .err => True
-    | .call _ body => bodyLocalRel B 0 body
-  def bodyLocalRel (B b : Nat) : List Item → Prop
-    | [] => True
-    | it :: rest => it.localRel B b ∧ bodyLocalRel B (it.bal b) rest
 end
 
 end GoluaVerif.Model.CallCtx
